@@ -41,6 +41,8 @@ def disk_mc(c, name, invariants=INV_ALL, keysets="MCKeySets1", timeout=900, work
     spec distinguishes intended and actual protocol); nothing about the code is concluded from it."""
     consts = dict(MC_BASE)
     consts.update(over)
+    if expect_violation:
+        invariants = [expect_violation]      # several may fail; which one TLC reports first is not deterministic
     d = vlib.stage_specs(["disk"])
     write_cfg(os.path.join(d, "mc.cfg"), "Spec", consts, invariants,
               subst=[("GroupOf", "MCGroupOf"), ("Groups", "MCGroups"), ("KeySets", keysets)])
@@ -142,6 +144,19 @@ def heavy_workloads(c, n, seed):
     out = good[:n]
     if not out:
         raise Inconclusive("no heavy workload with 10 leading commits generated")
+    for h in out:
+        h["heavy"] = True
+    return out
+
+
+def multi_workloads(c, n, seed):
+    """SyncWrites workloads in which five concurrent committers are written by the writer as ONE
+    batch (operation "multi") exactly where the 64 KiB memtable fills up (3000-byte inline values),
+    so that ensureRoomForWrite rotates memtable and WAL between two requests of a batch; the
+    flusher stays parked, so the following power-loss points have the rotated memtable un-flushed."""
+    out = generate(c, "multi-workloads", n, seed, workers=2, SyncModes="{TRUE}", Drops="{}", Styles="{2}", NKeys=6,
+                   KeySets="{{1, 2, 3}, {4, 5, 6}, {2, 4, 6}}", EnvOps="{}", MaxEnv=0, MaxRow=12, HistLen=9,
+                   MultiAt=7, MultiN=5)
     for h in out:
         h["heavy"] = True
     return out
